@@ -166,7 +166,7 @@ inductive SensorArg where
 deriving Repr
 
 inductive ZipOrder where
-  | code        -- pair-major (smrt as it is)
+  | code        -- pair-major (smrt before the `fix:` commit db74c75)
   | required    -- configuration-major (what the regrouping loop assumes)
 deriving Repr, DecidableEq
 
@@ -316,7 +316,7 @@ deriving Repr
 
 inductive WriteMode where
   | required   -- what the property demands: nothing of the caller's is written
-  | code       -- smrt as it is: the lazily defaulted attributes of the two reflector substrates
+  | code       -- smrt before the `fix:` commits b1c217a / c98a363: the lazily defaulted attributes of the two reflector substrates
 deriving Repr, DecidableEq
 
 /-- the caller's locations a simulation reads -/
@@ -344,8 +344,9 @@ def Shape.memos (sh : Shape) : List (String × String) :=
 
 /-- the writes into the caller's objects **that smrt performs** (the model of the defect):
     `Reflector.specular_reflection_matrix` / `emissivity_matrix`: `if self.specular_reflection is None: self.specular_reflection = 1`,
-    and in active mode `ReflectorBackscatter.emissivity_matrix`: `self.stop_pol2_warning = True` when the class flag is not yet set
-    (the instance flag is only written by the first active simulation of the process: modelled as possible) -/
+    (both reflector classes).  Not modelled: in active mode `ReflectorBackscatter.emissivity_matrix` also sets
+    `self.stop_pol2_warning = True` on the caller's substrate, but only in the first such simulation of a process (afterwards the
+    class-level flag shadows it); the oracle observes it in its warm-up run (`user-write:ReflectorBackscatter.stop_pol2_warning`). -/
 def Shape.userWrites {V : Type} (one : V) (sh : Shape) : WriteMode → List (Loc × V)
   | .required => []
   | .code =>
